@@ -323,9 +323,12 @@ def e7_e8(rep, src):
     )
     rep.rule(
         "E8",
-        "every select item of a rendered Map / Reduce is ast::SelectItem::ExprWithAlias whose alias is the schema field zipped at the same position (no conditional / un-aliased item); the CTE column list is the schema's field names",
+        "every select item of a rendered Map / Reduce is ast::SelectItem::ExprWithAlias whose alias is the schema field zipped at the same position (no conditional / un-aliased item); "
+        "the CTE column list is the schema's field names (Join / Set: always; Map / Reduce: or the empty list); and per dialect the columns of a Map / Reduce CTE keep a name through that dialect's own hooks: "
+        "the aliases survive `query` (the projection is passed on, or mapped by an alias-preserving function) or the list is given and survives `cte`",
         floor=2,
-        necessary="translators that drop the CTE column list (BigQuery, Hive) rely on item aliases: an un-aliased item exposes the input column name and the next CTE refers to a non-existent column",
+        necessary="translators that drop the CTE column list (BigQuery, Hive) rely on item aliases: an un-aliased item exposes the input column name and the next CTE refers to a non-existent column; "
+        "a dialect whose query hook drops aliases relies on the list; with neither the column has no name (rejected by the engine, read back under a generated name)",
     )
     rep.rule(
         "E16",
